@@ -133,6 +133,16 @@ def stress_inputs(tier):
                        "union Anything = Document | Person\ntype Query { doc: Document who: Person node: Node entity: Entity any: Anything }\n")
     s.append(dict(label="custom_operations_interface_field_conflicts", strategy="client", schema=conflict_schema, queries="query GetDoc { doc { id owner { id } } node { id ... on Person { label } } }\n",
                   options={"enable_custom_operations": True}))
+    # a module of the package that imports the package itself absolutely (a scalar type given by its full dotted path) next to third-party
+    # imports: how the import sorter classifies `genpkg` must not depend on what already lies in the target / working directory
+    money_schema = ("scalar Money\ninput PriceIn { minAmount: Money! maxAmount: Money note: String }\ntype Product { id: ID! listPrice: Money tags: [String!] }\n"
+                    "type Query { products(min: Money, f: PriceIn): [Product!]! }\n")
+    money_queries = "query ListProducts($min: Money, $f: PriceIn) { products(min: $min, f: $f) { id listPrice tags } }\n"
+    money_impl = "from decimal import Decimal\n\n\nclass Money(Decimal):\n    pass\n\n\ndef parse_money(value):\n    return Money(value)\n\n\ndef serialize_money(value):\n    return str(value)\n"
+    for label, extra in (("absolute_self_import", {}), ("absolute_self_import_cwd_is_target", {"cwd_is_target": True})):
+        s.append(dict(label=label, strategy="client", schema=money_schema, queries=money_queries, files={"money_impl.py": money_impl},
+                      options={"scalars": {"Money": {"type": "genpkg.money_impl.Money", "parse": "genpkg.money_impl.parse_money", "serialize": "genpkg.money_impl.serialize_money"}},
+                               "files_to_include": ["@in/money_impl.py"]}, **extra))
     parts = split_schema()
     same = {"types.graphql": parts["b_types.graphql"], "a/types.graphql": parts["a/interfaces.graphqls"], "b/types.graphql": parts["a/deep/unions.gql"], "b/c/types.graphql": parts["z.graphql"]}
     s.append(dict(label="same_file_names_in_subdirs", strategy="client", schema=same,
@@ -166,9 +176,22 @@ def hash_tree(root):
     return out
 
 
+def write_extra_files(inp, indir):
+    for fn, txt in (inp.get("files") or {}).items():
+        with open(os.path.join(indir, fn), "w") as f:
+            f.write(txt)
+
+
 def config_for(inp, root, sp, qp):
     if inp["strategy"] == "client":
-        cfg = genpkg.make_config(root, sp, qp, "genpkg", dict({"include_comments": "stable"}, **inp["options"]))
+        up = "../" if inp.get("cwd_is_target") else ""
+        opts = dict({"include_comments": "stable"}, **inp["options"])
+        if "files_to_include" in opts:
+            opts["files_to_include"] = [x.replace("@in/", up + "in/") for x in opts["files_to_include"]]
+        if inp.get("cwd_is_target"):
+            # the documented default: the package is generated into the directory the command runs in
+            root, sp, qp = ".", up + sp, (up + qp if qp else qp)
+        cfg = genpkg.make_config(root, sp, qp, "genpkg", opts)
         # stable comments embed the source paths; keep them independent of the scratch directory name
         return cfg
     return {"tool": {"ariadne-codegen": {"schema_path": sp, "target_file_path": os.path.join(root, inp["target"])}}}
@@ -203,10 +226,13 @@ def run_case(case):
     os.chdir(work)
     try:
         sp, qp = genpkg.write_inputs("in", inp["schema"], inp.get("queries"), None)
+        write_extra_files(inp, "in")
         os.makedirs("out", exist_ok=True)
         if prior:
             shutil.copytree(prior, "out", dirs_exist_ok=True)
         cfg = config_for(inp, "out", sp, qp)
+        if inp.get("cwd_is_target"):
+            os.chdir("out")
         vset.set_chooser(choose)
         pathlib.Path.glob = glob
         err = None
@@ -223,6 +249,7 @@ def run_case(case):
         finally:
             vset.set_chooser(None)
             pathlib.Path.glob = real_glob
+        os.chdir(work)
         return {"choices": ch.choices, "sizes": ch.sizes, "sites": sites, "hashes": hash_tree("out"), "error": err}
     finally:
         os.chdir("/")
@@ -237,10 +264,14 @@ def make_prior(inp, where):
         from ariadne_codegen import main as acm
         os.chdir(where)
         sp, qp = genpkg.write_inputs("in", inp["schema"], inp.get("queries"), None)
+        write_extra_files(inp, "in")
         os.makedirs("out", exist_ok=True)
         cfg = config_for(inp, "out", sp, qp)
+        if inp.get("cwd_is_target"):
+            os.chdir("out")
         with contextlib.redirect_stdout(io.StringIO()):
             (acm.client if inp["strategy"] == "client" else acm.graphql_schema)(cfg)
+        os.chdir(where)
         return hash_tree("out")
     st, r = pool.run_forked(gen, None, timeout=300)
     return os.path.join(where, "out") if st == "ok" else None
@@ -302,13 +333,17 @@ def subprocess_run(inp, hashseed, order, work):
             return dict(items if order == 0 else reversed(items))
         return x
     sp, qp = genpkg.write_inputs(os.path.join(d, "in"), ordered(schema), ordered(queries), None)
+    write_extra_files(inp, os.path.join(d, "in"))
     os.makedirs(os.path.join(d, "out"))
     cfg = config_for(inp, "out", os.path.relpath(sp, d), os.path.relpath(qp, d) if qp else None)
-    open(os.path.join(d, "pyproject.toml"), "w").write(toml.dumps(cfg))
+    rundir = os.path.join(d, "out") if inp.get("cwd_is_target") else d
+    open(os.path.join(rundir, "pyproject.toml"), "w").write(toml.dumps(cfg))
     env = dict(os.environ, PYTHONHASHSEED=str(hashseed))
     env.pop("PYTHONPATH", None)
     cmd = ["/venv/bin/python", "-m", "ariadne_codegen"] + (["graphqlschema"] if inp["strategy"] == "graphqlschema" else [])
-    r = subprocess.run(cmd, cwd=d, env=env, capture_output=True, text=True, timeout=300)
+    r = subprocess.run(cmd, cwd=rundir, env=env, capture_output=True, text=True, timeout=300)
+    if inp.get("cwd_is_target"):
+        os.remove(os.path.join(rundir, "pyproject.toml"))
     return hash_tree(os.path.join(d, "out")), (r.stderr[-300:] if r.returncode else None)
 
 
